@@ -14,6 +14,8 @@
 From PV Require Import Base.PdfObj.
 From PV Require Import Model.Flate Model.Filters Model.TypeCheck Model.ShippedEntry Model.Dom Model.ContentLex Model.Pipeline.
 From PV Require Import Proofs.Pipeline Proofs.PipelineTop.
+From PV Require Import Model.Full.
+From PV Require Model.Loader.
 
 (* no panic site of any stage is reachable, for EVERY object context (hostile parameters, reference cycles,
    absurd sizes included); the side condition is needed only by debug builds: a page whose decoded content
@@ -59,6 +61,19 @@ Theorem C01_root_missing_rejected : forall rel toks ctx rootid,
   octx_get ctx rootid = None -> pipeline rel toks ctx rootid = PRejected.
 Proof. intros. unfold pipeline. apply pipeline_gen_root_missing. assumption. Qed.
 
+(* loader ; pipeline: on the abstract description of ANY file (Model/Loader.v: no well-formedness assumed) the
+   loader never panics and terminates (C03_load_total), and the whole processing ends accepted or rejected *)
+Theorem C01_full_no_panic : forall rel toks p,
+  (forall c root, Loader.load p = Loader.Loaded c root -> small_pages rel toks (objs_of c) root) ->
+  full rel toks p <> PPanicked.
+Proof. exact full_no_panic. Qed.
+
+Theorem C01_full_two_outcomes : forall rel toks p,
+  (forall c root, Loader.load p = Loader.Loaded c root -> small_pages rel toks (objs_of c) root) ->
+  (forall d c, dec rel toks d c <> Fuel) ->
+  full rel toks p = PAccepted \/ full rel toks p = PRejected.
+Proof. exact full_two_outcomes. Qed.
+
 (* the hypotheses are satisfiable: a one-page document with an unfiltered content stream *)
 Definition ex_ctx : octx :=
   [((1, 0)%N, ODict [(B "Pages", ORef 2 0); (B "Type", OName (B "Catalog"))]);
@@ -85,6 +100,8 @@ Print Assumptions C01_dump_root_terminates.
 Print Assumptions C01_shipped_spec_wellformed.
 Print Assumptions C01_panic_sources.
 Print Assumptions C01_root_missing_rejected.
+Print Assumptions C01_full_no_panic.
+Print Assumptions C01_full_two_outcomes.
 
 (* NOT covered by these theorems (DESIGN.md, C01): the loader in front of the pipeline (its model is
    Model/Loader.v at the level of parsed pieces: termination of the /Prev walk is C04_chain_terminates; the
